@@ -235,6 +235,14 @@ class RecordingPolicy(serialization.DefaultPyrefPolicy):
     return super().allows_value(value)
 
 
+class ValueDenyPolicy(RecordingPolicy):
+  """Approves every import and no value (decides in allows_value, like DefaultPyrefPolicy does)."""
+
+  def allows_value(self, value):
+    self.value_calls.append(value)
+    return False
+
+
 class SizedPolicy(RecordingPolicy):
   """A policy object with a length (its deny list): an empty one is falsy."""
 
@@ -482,6 +490,17 @@ def execute(case):
         collect(y)
   collect(json.loads(doc))
   obs['policy_consulted'] = syms <= set(policy.import_calls)
+  # a second, STRICT policy in the same process (it approves every import but no value): nothing an
+  # earlier load resolved may be handed out again without THIS policy's approval
+  if syms:
+    strict = ValueDenyPolicy()
+    try:
+      serialization.load_json(doc, pyref_policy=strict)
+      obs['strict_policy'] = f'loaded although the policy approves no value (values asked about: {len(strict.value_calls)})'
+    except serialization.PyrefPolicyError:
+      obs['strict_policy'] = True if strict.value_calls else 'raised without asking about a value'
+    except Exception as e:
+      obs['strict_policy'] = f'raised {type(e).__name__}: {e}'[:160]
   # the same value through the flag-value serializer (zlib + base64 around the same document):
   # the supplied policy must be the one consulted there too, also when it denies
   try:
@@ -620,6 +639,9 @@ def oracle(case, real):
     return {'what': 'deserialization invoked a configured callable'}
   if not real['policy_consulted']:
     return {'what': 'a symbol was resolved without consulting the policy'}
+  if real.get('strict_policy', True) is not True:
+    return {'what': 'a symbol resolved earlier under another policy was resolved again without the approval of '
+                    'the policy supplied now', 'observed': real['strict_policy']}
   if real.get('no_value_singleton', True) is not True:
     return {'what': 'a NO_VALUE in the input came back as another object: the parameter is no longer unset',
             'observed': real['no_value_singleton']}
